@@ -1270,7 +1270,7 @@ class Interp:
                 raise RaiseSig(ExcVal(type(ex).__name__, args=(str(ex),), node=node))
             return
         if isinstance(base, dict):
-            self.emit("dict-store", (id(base), keyof(idx)), node, env)
+            self.emit("dict-store", (id(base), keyof(idx), "data-keyed" if _data_key(idx) else "constant-keyed"), node, env)
             base[_hashable(idx)] = v
             return
         if isinstance(base, list):
@@ -2116,6 +2116,15 @@ def _dotted(n):
     if isinstance(n, ast.Call):
         return _dotted(n.func)
     return None
+
+
+def _data_key(k, depth=0):
+    """does a dictionary key carry data of the call (a symbolic scalar, an array, an abstract record) rather than constants of the program?"""
+    if isinstance(k, (tuple, list)) and depth < 6:
+        return any(_data_key(x, depth + 1) for x in k)
+    if isinstance(k, E):
+        return not k.is_const()
+    return isinstance(k, (np.ndarray, Record, IntSym))
 
 
 def _is_generator(fn):
